@@ -130,6 +130,34 @@ func C16_Schedules() {
 	verif.Reach("returned")
 }
 
+// C16_SchedulesDeep: the same with two preemptions, on the inputs read in
+// two or three pieces (whole-input reads and 16-byte reads).
+func C16_SchedulesDeep() {
+	k := verif.Choice("input", 5)
+	in := c11Inputs[k]
+	chunk := []int{16, 1000}[verif.Choice("chunk", 2)]
+	var script []symio.Step
+	for i := 0; i*chunk < len(in.src); i++ {
+		script = append(script, symio.Step{N: chunk})
+	}
+	if verif.Choice("read-error", 2) == 1 {
+		if len(script) > 1 {
+			script = script[:1]
+		}
+		script = append(script, symio.Step{N: 0, Err: errC11})
+		k += 100 + 1000*chunk
+	}
+	f := &symio.File{Data: []byte(in.src), Script: script, FileName: "f"}
+	out, log := &symio.Writer{}, &symio.Writer{}
+	p, err := bcl.ParseFile(f, bcl.OptOutput(out), bcl.OptLogger(log))
+	res := "err=" + errText(err) + " log=" + log.String()
+	if err == nil {
+		res += " dump=" + string(c16Dump(p))
+	}
+	verif.Record("outcome/input"+itoa(k), res)
+	verif.Reach("returned")
+}
+
 type T16 struct {
 	Name  string
 	AB    int
